@@ -13,7 +13,8 @@ database.  Spec: the ordered map `specAll [] ops` of the history and its Merkle 
                       Hypotheses: `HashOK` on the finite set `HashedIn` of strings hashed along the
                       history (32-byte digests, no collision, no cycle of hash references) and the
                       decoder hypothesis `DecodesHist` (`codec.Decode` inverts the node encoding:
-                      C07).  `C06_reopen` is its second clause.
+                      C07).  `C06_reopen` is its second clause; `C06_get`: `Get` on the live
+                      instance after any history returns `OMap.get k` as well.
 * `C06_root_eq_spec_partial`, `C06_reopen_partial`, `C06_reopen_collision`, `C06_history_independent`
                       the one-session special case (no commit / reopen inside the history) under
                       weaker hypotheses: the root clause needs nothing about the hash; the reopen
@@ -255,6 +256,17 @@ theorem C06_root_eq_spec (c : Cfg) (ops : List Op) (hH : HashOK c.H (HashedIn c 
   obtain ⟨s', T1, h2, hs', hroot, hT⟩ := sessG_commit c hH hs hr hcovt hdect
   refine ⟨s, s', h1, h2, by rw [hroot, root_of_rep c.ver c.H hr], fun k => ?_⟩
   rw [sessG_fresh_get c hs' hroot hT k, hr.lookup_eq]
+
+/-- **Get on the live instance.**  After every history (commits and fresh instances included, without
+    a final commit) `Get` on the instance itself — the walk over in-memory nodes continued by
+    `TrieLookup` over the database — returns `get k` of the map for every key. -/
+theorem C06_get (c : Cfg) (ops : List Op) (hH : HashOK c.H (HashedIn c [] ops))
+    (hdec : DecodesHist c [] ops) :
+    ∃ s, execAll c (St.init c.H) ops = .ok s ∧
+      ∀ k, doGet c s k = OMap.get k (specAll [] ops) := by
+  obtain ⟨s, T0, t, h1, hs, hr⟩ := exec_inv c hH ops _ nil nil []
+    (sessG_init c _ hH.len hdec.1) Rep.empty hdec (covers_hashedIn c [] ops)
+  exact ⟨s, h1, fun k => by rw [sessG_get c hs k, hr.lookup_eq]⟩
 
 /-- the reopen clause on its own -/
 theorem C06_reopen (c : Cfg) (ops : List Op) (hH : HashOK c.H (HashedIn c [] ops))
